@@ -28,6 +28,9 @@ def main():
     for p in props:
         pid = p["id"]
         m = META.get(pid)
+        mp = os.path.join(VERIF, "mc", "checks", pid.lower() + ".meta.json")
+        if os.path.exists(mp):
+            m = json.load(open(mp))
         have = os.path.exists(os.path.join(VERIF, "mc", "checks", pid.lower() + ".py"))
         if m and m.get("claimed") and have:
             for e in m["engine"].split("+"):
